@@ -411,7 +411,7 @@ def main():
                     if w is None and pid in ('C05',):
                         w = witness.gen_clock(pid, fake)
                     if w is None and pid in ('C03', 'C04'):
-                        w = witness.gen_conc_store(pid, fake)
+                        w = witness.gen_conc_store(pid, fake) or (witness.gen_steps_lin(pid, fake) if pid == 'C03' else None)
                     if w is None and pid in ('C09', 'C10', 'C12', 'C13', 'C18'):
                         w = witness.gen_framing(pid, fake) or witness.gen_sock(pid, fake)
                     if w is None and pid in ('C15', 'C14'):
@@ -461,6 +461,14 @@ def main():
                         thorough['twin']['witness_lines'] = w.get('lines')
             except Exception as e:
                 thorough['twin_error'] = repr(e)
+        if pid == 'C03':
+            try:
+                import witness
+                w = witness.gen_steps_lin(pid, {'full': 'conc'})
+                thorough['step_level_schedules'] = {'bounded': 'two threads, get/set/delete/flush on one key, thread 1 parked before each of its Cache-layer / clock calls', 'schedules': witness.gen_steps_lin.last_count, 'mismatch': (w or {}).get('what')}
+                if w: undecided.append('step-level schedule grid: %s (although every obligation is discharged or known)' % w['what'])
+            except Exception as e:
+                thorough['step_level_schedules_error'] = repr(e)
         if pid == 'C05':
             try:
                 import replaytool, witness
